@@ -95,6 +95,11 @@ CHECKS = {
    "Sweeps (sign_delayed_sweep, sign_counterparty_htlc_sweep with offered and received redeemscripts, sign_justice_sweep): commitment type x version {1,2,3} x 13 locktimes (0, height, height+2, +3, +145, HTLC expiry, +1, +145, 499999999, 500000000, past and future timestamps, 2^32-1) x 11 sequences of the signed input (delay-1, delay, delay+1, 0, 1, 0xfffffffd/e/f, 65535, time-flagged, delay+145) x another input (absent, or before/after the signed one with its own sequence) x 9 output patterns (wallet, wallet at another path, allowlisted, foreign, and two-output mixes in both orders): 75k (quick) / 290k requests. HTLC transactions (sign_holder_htlc_tx, sign_counterparty_htlc_tx; offered and received; both commitment types): version, locktime, sequence, prevout, fee at min-2 / min / max / max+2 / 0 / 2^32-wrap, output value +-1, output script with another delay / revocation key / delayed key / foreign, extra input / output, amount +-1, other or junk redeemscript, other per-commitment point. A signed sweep must satisfy the envelope; a signed HTLC transaction must have the sighash of the harness-built BOLT-3 transaction for the negotiated delay and keys at an in-range fee rate, and the signature must verify against it under the node's HTLC key with the channel type's sighash flag.",
    "Qualitative bounds use a generous envelope (e.g. locktime <= height + 144) so that removing a check is caught but retuning a constant is not; the parameter-only sign_holder_htlc_tx_phase2 is out of scope as in the statement.",
    "4.5"),
+ "C19": (True, "wirert", "model_checking",
+   "exhaustive enumeration, per message type of the registry (code generated from msgs.rs at check time), of the base value, every single field deviation and (thorough) every pair over per-type value alphabets; field-by-field and byte-level round-trip oracle, semantic oracle for streamed PSBTs",
+   "tools/gen_wire.py parses every #[message_id] struct and the Message enum of vls-protocol/src/msgs.rs before each build and emits a builder and a checker per type (109 types; a struct missing from the parse, a count mismatch with the enum or a field type without an alphabet is a machinery failure). Alphabets: integers {position-dependent base, 0, 1, max}, fixed arrays {pattern, zeros, 0xff}, Octets {short, empty, 1, 65535 bytes}, LargeOctets up to 70000, arrays {one, none, three, one element per element deviation}, options present / absent, strings, transactions (minimal, two inputs with witnesses, 20 outputs), PSBTs (bare, witness utxo, non-witness utxo, paths and scripts), block headers, proofs built with txoo, and for streamed PSBTs every sequence of 1-2 (selected 3) inputs over {previous tx segwit / legacy / + matching witness utxo / + contradicting witness utxo, witness utxo only, nothing}. Oracle: msgs::from_vec(m.as_vec()) yields the same variant, every field encoded on its own is byte-identical before and after, the decoded message re-encodes to the original bytes, the typed decoder agrees; for streamed PSBTs the decoded transaction, per-input previous outputs, segwit flags, scripts and paths equal those implied by the encoded PSBT.",
+   "Trailing bytes / proper prefixes are recorded as observations only. Developer-only message types are not in the build under test. A PSBT whose witness utxo contradicts its previous transaction may be refused by the decoder.",
+   "7.4"),
  "C20": (True, "concur", "model_checking",
    "stateless model checking of the real Node under shuttle's runtime with an own preemption-bounded depth-first scheduler (iterative context bounding); linearizability by brute force against all sequential orders",
    "vls-core is built with --cfg vls_verif so that every Mutex of its prelude (node state, channel map, channel slots, tracker, monitor state, stores) is shuttle's. For each of ~110 scenarios (every unordered pair of 14 request kinds - commitment updates, forget/new/setup channel, balance, heartbeat, keysend, on-chain check and signature, block with the channel's close (compact and streamed), empty block, allowlist - plus the single-channel races validate||revoke, sign-holder||revoke, sign-counterparty||counterparty-revocation; thorough adds triples) every schedule of the request threads with <= 1 (2) preemptions is executed to completion on a freshly built node, and <= 2 (3) preemptions as far as the budget goes; a schedule that cannot complete is a deadlock, and the tuple (replies, fingerprint of live state and store) must equal that of some sequential order of the same requests.",
